@@ -53,6 +53,26 @@ def configs(tier):
     s = A.to_spec(A._b(crop="cotton.2", win={"pre": 0, "seasons": 2}, word="mix", irr="smt"))
     s["co2"] = {"table": [[1990, 350.0], [2001, 372.0], [2002, 391.0], [2003, 420.0], [2050, 560.0]]}
     C["multi_at_planting_co2_table"] = s
+    # every soil option together with a shallow water table, every crop option under drought (derived quantities that one run may
+    # leave on the user's objects and the next initialisation may pick up)
+    for k, kw in A.SOILOPT.items():
+        if not kw:
+            continue
+        s = A.to_spec(A._b(crop="maize.2", win="w1", word="dry", gw="0.8", soil="ClayLoam", dz="deep30"))
+        s["soil"]["kw"] = dict(kw)
+        C["soilopt_" + k + "_table"] = s
+    for k, kw in A.CROPOPT.items():
+        if not kw:
+            continue
+        s = A.to_spec(A._b(crop="maize.2", win="w2", word="mix", irr="smt", iwc="Pct50"))
+        s["crop"]["kw"] = dict(s["crop"].get("kw") or {}, **kw)
+        C["cropopt_" + k] = s
+    s = A.catalogue_spec("Maize", word="hot", end="2003/04/20", cropkw={"SwitchGDD": 1})
+    s["crop"]["harvest"] = "09/30"
+    C["switchgdd_explicit_harvest"] = s
+    s = A.catalogue_spec("MaizeGDD", word="hot", end="2003/04/20")
+    s["crop"]["harvest"] = "09/30"
+    C["thermal_explicit_harvest"] = s
     if tier != "quick":
         C["wheat_full"] = A.catalogue_spec("Wheat", word="normal", planting="10/01", start="2001/10/01", end="2002/09/20", irr="smt")
         C["alfalfa_deep"] = A.catalogue_spec("AlfalfaGDD", word="hot", end="2002/04/20")
